@@ -28,7 +28,10 @@ func genCase(t *rapid.T) Case {
 	nk := rapid.IntRange(1, 3).Draw(t, "keys")
 	T := c.TimeoutMs
 	gaps := []int64{1, T / 2, T - 1, T, T + 1, 3 * T, 0, T / 4}
-	if pbt.Open("C10", "gap-at-or-above-timeout") {
+	// While the no-split finding is open, half of the cases still use gaps at/above the timeout: the kinds the
+	// finding explains (sessions not split, speed dependence) are suppressed for them, everything else
+	// (no event lost or reported twice, keys, bounds, early firing) is still checked.
+	if pbt.Open("C10", "gap-at-or-above-timeout") && rapid.Bool().Draw(t, "avoidGaps") {
 		gaps = []int64{1, T / 2, T - 1, 0, T / 4, T - 2}
 	}
 	var evs []et.Event
